@@ -362,6 +362,49 @@ def h_additional(ctx, cfg):
                 ctx.prove("additional_args.exactly_the_unreferenced_entries_in_order", z3.BoolVal(got == want), detail="table %d found %r: %r vs %r" % (n, perm, got, want))
 
 
+def additional_step():
+    def build():
+        src = rewrite.Source.of(B)
+        fn = src.get_def("ToArgs.additional_args")
+        loop = rewrite.find_stmt(fn, lambda n, t: isinstance(n, ast.For), "for i in range(len(self._args))")
+        if ast.unparse(loop.iter) != "range(len(self._args))" or ast.unparse(loop.target) != "i":
+            raise rewrite.BindingError("additional_args loop changed: for %s in %s" % (ast.unparse(loop.target), ast.unparse(loop.iter)))
+        frag = rewrite.make_function("additional_args_step", ["self", "i"], list(loop.body), B.__name__, "ToArgs.additional_args", "body of `for i in range(len(self._args))` on a generic index")
+        return frag
+    return cached("additional_step", build)
+
+
+@harness("blocks.ToArgs.additional_args.inductive_step", props=["C09", "C01"], functions=["code_data._blocks.ToArgs.additional_args", "code_data._blocks.ToArgs.found_index"], configs="any",
+         assumes=["`for i in range(n)` visits 0..n-1 in ascending order (Python semantics); induction over i is the meta-step"],
+         notes="loop body on a generic index i under the invariant 'every index >= i is found now iff it was found before the call': yields exactly when i was never found, the yielded "
+               "value is table[i] with an override iff i differs from its rank, and the invariant holds for i+1 - so the generator yields exactly the never-found indices, ascending")
+def h_additional_step(ctx, cfg):
+    from .c_blocks import KEYF, keyfn
+    frag = additional_step()
+    ns = tables_ns()
+    step = rewrite.compile_defs(B, [copy.deepcopy(frag)], {"pvhook_len": plen}, "ToArgs.additional_args:step")["additional_args_step"]
+    table = SymArrSeq.fresh("table")
+    M0, M, F = SymMap.fresh("M0"), SymMap.fresh("M"), SymMap.fresh("F")
+    i = ctx.input("i", SymInt.fresh("i"))
+    j = z3.Int("inv_j")
+    ctx.assume(z3.And(M.size >= 0, table.length >= 0, i.z >= 0, i.z < table.length), "pre")
+    ctx.assume(z3.ForAll([j], z3.Implies(j >= i.z, z3.Select(M.dom, j) == z3.Select(M0.dom, j))), "loop invariant: indices >= i are found now iff they were found before the call")
+    size_before = M.size
+    t = ns["ToArgs"](table, M, keyfn, F)
+    ys = list(step(t, i))
+    if ys:
+        ctx.prove("step.yields_once", z3.BoolVal(len(ys) == 1))
+        ctx.prove("step.yields_only_never_found_indices", z3.Not(z3.Select(M0.dom, i.z)))
+        value, override = ys[0]
+        ctx.prove("step.yielded_value_is_table[i]", Z(value) == z3.Select(table.arr, i.z))
+        if override is not None:
+            ctx.prove("step.override_is_the_index", Z(override) == i.z)
+        ctx.prove("step.rank_is_the_number_of_entries_found_before", z3.Select(M.val, i.z) == size_before)
+    else:
+        ctx.prove("step.skips_only_found_indices", z3.Select(M0.dom, i.z))
+    ctx.prove("step.invariant_preserved_for_i+1", z3.ForAll([j], z3.Implies(j >= i.z + 1, z3.Select(M.dom, j) == z3.Select(M0.dom, j))))
+
+
 @harness("blocks.FromArgs.to_tuple[len<=3]", props=["C03"], functions=["code_data._blocks.FromArgs.to_tuple", "code_data._blocks.FromArgs.__setitem__"], configs="any", engine="E2",
          notes="bounded: up to 3 entries written at symbolic slots: to_tuple either raises, or the slots are exactly 0..n-1 and table[k] is the value written at k "
                "(so an operand already emitted never indexes outside the table)")
